@@ -138,8 +138,11 @@ Fixpoint saccept (s : sstate) (evs : list nat) (n : nat) : nat * sstate :=
   | p :: r => match sstep s p with Some s' => saccept s' r (S n) | None => (n, s) end
   end.
 
-(* flush(): only with the storage closed in all processes (no operation in progress) *)
-Definition sflush (s : sstate) : sstate := mkSS [] [] 0 0 (ss_lock s) (ss_procs s) [].
+(* flush(): only with the storage closed in all processes (no operation in progress).  The files are removed, index and
+   counters reset; the writer numbers stay assigned (a process that stores again creates its file anew).  A new epoch
+   begins: the outputs of the operations completed before the flush have been judged against the texts of their epoch. *)
+Definition sflush (s : sstate) : sstate :=
+  mkSS [] (map (fun _ => []) (ss_files s)) 0 0 None (map (fun pr => mkP (p_wid pr) (p_todo pr) PIdle []) (ss_procs s)) [].
 
 (* ------------------------------------------------------------------ wire *)
 Definition dec_sop (v : val) : sop :=
